@@ -152,6 +152,10 @@ def run_C12(ctx):
     rc = ctx.tlc("MC_C12", cfg="MC_C12_comments.cfg" if ctx.quick else "MC_C12_comments_thorough.cfg", timeout=1800, label="MC_C12(comments)")
     resc = ctx.vh("scan-replay", rc.out, env={"VH_DISTINCT": "len"})
     ctx.absorb(resc, "G:scan-replay(comments)")
+    # what stands behind a schema body (explored without the VIEW: the dependency's look-ahead depends on what it has read)
+    rb = ctx.tlc("MC_C12", cfg="MC_C12_bodytail.cfg" if ctx.quick else "MC_C12_bodytail_thorough.cfg", timeout=1800, label="MC_C12(body tail)")
+    resb = ctx.vh("scan-replay", rb.out, env={"VH_DISTINCT": "len"})
+    ctx.absorb(resb, "G:scan-replay(behind a body)")
     # V: the real scanner on whole corpus files and mutations of them, judged by Scanner.tla
     tp = os.path.join(ctx.scratch, "trace_scan.ndjson")
     rec = ctx.vh("scan-record", REPO, tp, 4 if ctx.quick else 1, 1 if ctx.quick else 3, ctx.seed)
@@ -206,6 +210,7 @@ def _include_contexts(ctx, label, prefixes=None):
     contexts and methods with their own path in the included file, ')' on either side"""
     r = ctx.tlc("MC_C07", cfg="MC_C07_ctx.cfg", timeout=3000)
     res = ctx.vh_isolated("c07-replay", r.out, chunk=20000, timeout=900, sig_prefix="c07")
+    res = _only(res, ["c14:"], invert=True)
     if prefixes is not None:
         res = _only(res, prefixes)
     ctx.absorb(res, label)
@@ -220,6 +225,7 @@ def run_C07(ctx):
     ctx.assumptions += ["files use LF line endings (mixed conventions are outside the definition of 'the line this index has')",
                         "known finding C07-tracer-cache is recognised only when the observed trace equals the quirk model's prediction"]
     r, res = _include_graphs(ctx, "c07")
+    res = _only(res, ["c14:"], invert=True)      # cycle verdicts are C14's
     ctx.absorb(res, "G:c07-replay")
     ctx.cov["exhaustive"] = True
     st = ctx.vh("c07-replay", r.out, "selftest")
@@ -385,13 +391,13 @@ def run_C16(ctx):
     ctx.absorb(res2, "G:serial-replay(corpus)")
     # the mechanism-state graph on the documents of other generators: type graphs at every use site, one macro body at several sites
     rt = ctx.tlc("MC_C01types", cfg="MC_C01types_quick.cfg", timeout=1800)
-    res3 = ctx.vh("serial-replay", r2.out, "types:" + rt.out, timeout=3000)
+    res3 = ctx.vh("serial-replay", r2.out, "types:" + rt.out, env={"VH_SRC_STEP": "7" if ctx.quick else "1"}, timeout=3000)
     ctx.absorb(res3, "G:serial-replay(type graphs)")
     rs = ctx.tlc("MC_C10sites", cfg="MC_C10sites.cfg", timeout=900)
     res4 = ctx.vh("serial-replay", r2.out, "toks:" + rs.out, timeout=3000)
     ctx.absorb(res4, "G:serial-replay(paste sites)")
     rm = ctx.tlc("MC_C02", cfg="MC_C02_gen.cfg", timeout=3300)
-    res5 = ctx.vh("serial-replay", r2.out, "model:" + rm.out, env={"VH_SRC_STEP": "5" if ctx.quick else "1"}, timeout=3300)
+    res5 = ctx.vh("serial-replay", r2.out, "model:" + rm.out, env={"VH_SRC_STEP": "9" if ctx.quick else "1"}, timeout=3300)
     ctx.absorb(res5, "G:serial-replay(block model)")
     ctx.cov["exhaustive"] = True
     st = ctx.vh("serial-replay", r2.out, "docs", "selftest")
@@ -473,6 +479,8 @@ def run_C06(ctx):
         x = dict(x, nontrivial=x.get("cases", 0))
         ctx.absorb(x, "G:sweep-c06(%s)" % name)
     _sweep_more(ctx, "c06", "c06")
+    xd = ctx.vh("sweep", "c06", "depmap", timeout=600)
+    ctx.absorb(dict(xd, nontrivial=xd.get("cases", 0)), "G:sweep-c06(dependency map order)")
     # macro graphs: several offending macros -> the reported site must be stable
     r2 = ctx.tlc("MC_C10cyc", timeout=900)
     res2 = ctx.vh("c06-docs", r2.out, timeout=900)
